@@ -323,3 +323,10 @@ def test_fixed_F31_entropy_regularised_pi_with_integer_reward_tensor():
     a = erpi(tf, rf, 0.9, 0.5, 10000).state_values.tolist()
     b = erpi(tf, rf.double(), 0.9, 0.5, 10000).state_values.tolist()
     assert a == pytest.approx(b)
+
+
+def test_fixed_F32_factor_table_with_one_impossible_row():
+    from msdm.core.distributions import DiscreteFactorTable as Pr
+    p = Pr([{'a': 1}, {'a': 2}, {'a': 3}], probs=[.5, .5, 0.])
+    assert tuple(float(x) for x in (p * .5).probs) == pytest.approx((.5, .5, 0.))
+    assert tuple(float(x) for x in Pr([{'a': 1}, {'a': 2}], logits=[0., -np.inf]).probs) == (1.0, 0.0)
